@@ -53,7 +53,8 @@ const (
 	loopFrame   = "runservice.(*RunService).loop"
 	loopPoll    = 20 * time.Microsecond
 	loopTimeout = 3 * time.Second
-	runRounds   = 400
+	runRounds   = 120                   // a release is cut short after this many rounds ...
+	runBudget   = 40 * time.Millisecond // ... or this long, if the queue still is not empty
 )
 
 var svcSeq int64
@@ -372,6 +373,7 @@ func (w *world) runLoop() {
 			w.inq = w.scan()
 		}
 	}()
+	t0 := time.Now()
 	for round := 0; ; round++ {
 		if w.ctl != nil {
 			close(w.ctl.release)
@@ -417,8 +419,11 @@ func (w *world) runLoop() {
 		if len(q) == 0 {
 			return
 		}
-		if round >= runRounds {
-			w.tag("run-round-cap")
+		if round >= runRounds || time.Since(t0) > runBudget {
+			// expiries keep arriving as fast as the loop is released (a loaded machine): the loop
+			// stays parked with what is left in its queue, and the observation says so (BRanCut)
+			w.tag("release-cut-short")
+			w.cut = true
 			return
 		}
 	}
